@@ -1076,6 +1076,101 @@ def rule_r14(prog, res):
     res.floor('R14', 'protocol type sets folded', n, 3)
 
 
+# ------------------------------------------------------------------ R15
+def rule_r15(prog, res):
+    res.rule('R15', 'publication covers registration: every collection of '
+             'methods the interface makes routable is also iterated by the '
+             'WSDL emitter')
+    itf = prog.cls('spyne.interface._base:Interface')
+    pop = itf.methods.get('populate_interface')
+    if pop is None:
+        raise AnalysisError('Interface.populate_interface', 'not found')
+    # collections whose items are handed to process_method
+    sources = {}
+    for loop in walk_no_defs(pop.node):
+        if not isinstance(loop, ast.For):
+            continue
+        routed = any(call_name(c) == 'process_method'
+                     for st in loop.body for c in ast.walk(st)
+                     if isinstance(c, ast.Call))
+        if routed:
+            it = loop.iter
+            while isinstance(it, ast.Call) and it.args:
+                it = it.args[0]
+            if isinstance(it, ast.Call) and isinstance(it.func,
+                                                       ast.Attribute):
+                it = it.func.value
+            src = unparse(it)
+            if src.startswith('self.'):
+                sources[src[5:].split('.')[0]] = loop
+    # nested: "for s in self.services: for method in s.public_methods"
+    sources = {k: v for k, v in sources.items()
+               if k not in ('public_methods',)}
+    res.floor('R15', 'routable method collections', len(sources), 1)
+    w = prog.cls('spyne.interface.wsdl.wsdl11:Wsdl11')
+    read = set()
+    for f in w.methods.values():
+        for a in walk_no_defs(f.node):
+            if isinstance(a, ast.Attribute) and isinstance(
+                    a.value, ast.Attribute) and a.value.attr == 'interface':
+                read.add(a.attr)
+    for src, loop in sorted(sources.items()):
+        ok = src in read
+        where = '%s:%d' % (pop.module.relpath, loop.lineno)
+        res.ob('R15', where, 'methods routed from interface.%s are %s by '
+               'Wsdl11' % (src, 'published' if ok else 'NOT published'),
+               'ok' if ok else 'VIOLATED')
+        if not ok:
+            res.finding('R15', 'Wsdl11|%s-not-published' % src, where,
+                        'Interface.populate_interface makes the methods in '
+                        'interface.%s routable (process_method), but no '
+                        'method of Wsdl11 reads that collection: those '
+                        'methods answer requests without appearing as a '
+                        'portType operation' % src)
+
+
+# ------------------------------------------------------------------ R16
+def rule_r16(prog, res):
+    res.rule('R16', 'every source of the member table the complexType writer '
+             'walks maps names to model classes (the loop hands the values to '
+             'issubclass and to the element writers)')
+    m = prog.module('spyne.interface.xml_schema.model')
+    f = m.functions.get('complex_add')
+    if f is None:
+        raise AnalysisError('complex_add', 'not found')
+    loops = [l for l in walk_no_defs(f.node) if isinstance(l, ast.For) and
+             isinstance(l.iter, ast.Call) and call_name(l.iter) == 'items' and
+             isinstance(l.iter.func.value, ast.Name)]
+    n = 0
+    CLASS_TABLES = ('_type_info', 'get_flat_type_info')
+    for l in loops:
+        var = l.iter.func.value.id
+        uses_class = any(isinstance(c, ast.Call) and call_name(c) ==
+                         'issubclass' for st in l.body for c in ast.walk(st))
+        if not uses_class:
+            continue
+        for a in walk_no_defs(f.node):
+            if isinstance(a, ast.Assign) and any(
+                    isinstance(t, ast.Name) and t.id == var
+                    for t in a.targets):
+                n += 1
+                src = unparse(a.value)
+                ok = any(src.endswith('.' + t) or ('.%s(' % t) in src
+                         for t in CLASS_TABLES)
+                where = '%s:%d' % (m.relpath, a.lineno)
+                res.ob('R16', where, 'complex_add: %s = %s' % (var, src[:50]),
+                       'ok' if ok else 'VIOLATED')
+                if not ok:
+                    res.finding('R16', 'complex_add|member-table|%s' %
+                                src[:40], where, 'the member table is taken '
+                                'from %s, whose values are not model classes '
+                                '(get_simple_type_info yields path records): '
+                                'the loop passes them to issubclass, so '
+                                'building the schema of such a class raises '
+                                'TypeError and no WSDL is produced' % src)
+    res.floor('R16', 'sources of the member table', n, 2)
+
+
 def run(prog, res, tier):
     res.run_rule(rule_r1, prog, res, tier)
     res.run_rule(rule_r2, prog, res)
@@ -1091,6 +1186,8 @@ def run(prog, res, tier):
     res.run_rule(rule_r12, prog, res)
     res.run_rule(rule_r13, prog, res)
     res.run_rule(rule_r14, prog, res)
+    res.run_rule(rule_r15, prog, res)
+    res.run_rule(rule_r16, prog, res)
 
 
 _S = 'spyne/interface/xml_schema/_base.py'
@@ -1099,6 +1196,12 @@ _I = 'spyne/interface/_base.py'
 _T = 'spyne/util/toposort.py'
 
 MUTANTS = [
+    Mutant('private-parent-fields-as-records', 'R16', 'fire',
+           'spyne/interface/xml_schema/model.py',
+           in_func('complex_add',
+                   "type_info = cls.get_flat_type_info(cls)",
+                   "type_info = cls.get_simple_type_info(cls)"),
+           'member-table'),
     Mutant('toposort-consumes-caller-sets', 'R13', 'fire', _T,
            in_func('toposort2',
                    "        data = dict([(item, (dep - ordered)) for item,dep "
